@@ -89,7 +89,9 @@ def run(ctx):
                         keyvar = l2[2][2][1]
                         ok = True
     pvlet = ok
-    ctx.check("C18.V1", "printed-move-is-the-cached-move-of-the-looked-up-entry", ok and keyvar is not None and keyvar[0] == "var",
+    # the key is a variable re-derived after each push, or directly the hash of the walk's own clone at the time of the lookup
+    direct = bool(keyvar) and keyvar[0] == "call" and keyvar[1] == "chess::Game::hash" and len(keyvar[2]) == 1 and keyvar[2][0][0] == "var"
+    ctx.check("C18.V1", "printed-move-is-the-cached-move-of-the-looked-up-entry", ok and keyvar is not None and (keyvar[0] == "var" or direct),
               fn=DRIVER, file=fn["file"], line=hir.line(node),
               what="the move printed in `info pv` must be the pv of the entry just fetched from the table",
               expected="print(entry.pv) for entry = table.get(&key)", found={"source of the printed move": hir.fmt(src, 120) if src else None,
@@ -116,6 +118,10 @@ def run(ctx):
     want_key = ("key=", "Game::hash(%s)" % clone_name)
     pushes = [s for s in seq if s[0] == "push"]
     ok = len(pushes) == 1 and pushes[0][2] == pvname and want_key in seq and seq.index(pushes[0]) < seq.index(want_key) and ("print",) in seq
+    if direct:
+        # `table.get(&line.hash())`: the key is the clone's hash whenever it is looked up; the clone must be the one the move is played on
+        ok = len(pushes) == 1 and pushes[0][2] == pvname and ("print",) in seq and keyvar[2][0] == ("var", clone_name)
+        want_key = ("lookup by", "Game::hash(%s)" % clone_name)
     ctx.check("C18.V1", "key-rederived-after-each-push-of-the-printed-move", ok, fn=DRIVER, file=fn["file"], line=hir.line(loop_body),
               what="after printing a pv move the walk must play exactly that move on its clone and take the clone's hash as the next key "
                    "(updating the key before the push, or pushing another move, walks a line that was never searched)",
@@ -128,7 +134,7 @@ def run(ctx):
             defs.append(hir.fmt(sym(n["init"]), 60))
         if n.get("k") == "Assign" and hir.strip(n["l"]).get("to", {}).get("name") == kname:
             defs.append(hir.fmt(sym(n["r"]), 60))
-    ok = sorted(defs) == sorted(["Game::hash(game)", "Game::hash(%s)" % clone_name])
+    ok = sorted(defs) == sorted(["Game::hash(game)", "Game::hash(%s)" % clone_name]) or (direct and not defs)
     ctx.check("C18.V1", "key-definitions", ok, fn=DRIVER, file=fn["file"],
               what="the lookup key may only be the searched game's hash and the clone's hash after a push",
               expected=["Game::hash(game)", "Game::hash(%s)" % clone_name], found=defs)
@@ -143,7 +149,7 @@ def run(ctx):
     for n, anc in hir.walk(body):
         if n.get("k") == "SLet" and n["pat"].get("k") == "PBind" and n["pat"]["name"] == kname:
             kdepth = sum(1 for a in anc if a.get("k") == "Loop")
-    ok = len(cdefs) == 1 and cdefs[0].endswith("clone(game)") and cdepth == 1 and kdepth == 1
+    ok = len(cdefs) == 1 and cdefs[0].endswith("clone(game)") and cdepth == 1 and (kdepth == 1 or direct)
     ctx.check("C18.V2", "walk-plays-on-a-fresh-clone-of-the-searched-game", ok, fn=DRIVER, file=fn["file"],
               what="each iteration's PV walk must start from a fresh clone of the searched game and that game's hash",
               expected="let game_clone = game.clone(); let hash = game.hash(); inside the iteration", found={"clone": cdefs, "loop depth": (cdepth, kdepth)})
